@@ -15,13 +15,16 @@ Ev == Trace[l]
 Consume == l <= Len(Trace) /\ l' = l + 1
 
 AbsOf(isAbs, comps, cwd) == IF isAbs THEN [abs |-> TRUE, comps |-> comps] ELSE [abs |-> TRUE, comps |-> cwd \o comps]
+\* a component that becomes ".." when the extraction converts the name to UTF-8 (see ZipSlip.tla)
+Eff(c) == IF c = "E.." THEN ".." ELSE c
+Converted(p) == [abs |-> p.abs, comps |-> [i \in 1..Len(p.comps) |-> Eff(p.comps[i])]]
 NestedName(e) == IF e.kind = "nested" THEN SubSeq(e.name, 1, Len(e.name) - 1) \o <<e.stem>> ELSE e.name
 
 TraceInit == l = 1 /\ dest = [abs |-> TRUE, comps |-> <<>>] /\ escapes = FALSE /\ viol = {} /\ id = 0
 
 Begin == /\ Consume /\ Ev.ev = "Begin"
          /\ LET d == AbsOf(Ev.destAbs, Ev.dest, Ev.cwd)
-                target == Join(d, [abs |-> FALSE, comps |-> Ev.name])
+                target == Converted(Clean(Join(d, [abs |-> FALSE, comps |-> Ev.name])))    \* cleaned as named in the archive, then converted
                 nestedRoot == Join(Dir(Clean(target)), [abs |-> FALSE, comps |-> <<Ev.stem>>])
             IN /\ dest' = d
                /\ escapes' = (~Inside(target, d) \/ (Ev.kind = "nested" /\ ~Inside(nestedRoot, d)))
